@@ -491,3 +491,168 @@ func ruleCompileBeforeRun(c *Ctx, rule string) {
 }
 
 func isAssign(n ast.Node) bool { _, ok := n.(*ast.AssignStmt); return ok }
+
+// ruleImportAllOrNothing (T4): a grouped import either binds every package it names or none. MultiImport validates
+// every spec first (unquoting and sanitising the path can fail) and only then hands the whole set to the importer.
+// Decided: inside the loops of MultiImport no function is called that can reach a publication into the compiler's
+// registry (NewBind / NewFuncBind or a store into Binds or Types, over statically resolved calls), and at least one
+// such call follows the loops.
+func ruleImportAllOrNothing(c *Ctx, rule string) {
+	pk := c.P.Pkg("fast")
+	info := pk.TypesInfo
+	fd := c.P.Func("fast.Comp.MultiImport")
+	if fd == nil || fd.Body == nil {
+		c.Ob(rule, "fast.Comp.MultiImport", nil, false, "anchor function not found")
+		return
+	}
+	memo := map[*types.Func]int{}
+	var publishes func(fn *types.Func, depth int) bool
+	publishes = func(fn *types.Func, depth int) bool {
+		if fn == nil || fn.Pkg() != pk.Types {
+			return false
+		}
+		if v, ok := memo[fn]; ok {
+			return v == 1
+		}
+		memo[fn] = 0
+		switch funcFullName(fn) {
+		case "fast.Comp.NewBind", "fast.CompBinds.NewBind", "fast.Comp.NewFuncBind":
+			memo[fn] = 1
+			return true
+		}
+		if depth > 5 {
+			return false
+		}
+		d := c.P.Func(funcFullName(fn))
+		if d == nil || d.Body == nil {
+			return false
+		}
+		found := false
+		ast.Inspect(d.Body, func(n ast.Node) bool {
+			if found {
+				return false
+			}
+			switch x := n.(type) {
+			case *ast.FuncLit:
+				return false
+			case *ast.AssignStmt:
+				for _, l := range x.Lhs {
+					if ix, ok := unparen(l).(*ast.IndexExpr); ok {
+						if _, isB := fieldSel(info, ix.X, "Binds"); isB {
+							found = true
+						}
+						if _, isT := fieldSel(info, ix.X, "Types"); isT {
+							found = true
+						}
+					}
+				}
+			case *ast.CallExpr:
+				if publishes(calleeOf(info, x), depth+1) {
+					found = true
+				}
+			}
+			return true
+		})
+		if found {
+			memo[fn] = 1
+		}
+		return found
+	}
+	var inLoop, after []string
+	var loopEnd token.Pos
+	var stack []ast.Node
+	ast.Inspect(fd.Body, func(n ast.Node) bool {
+		if n == nil {
+			stack = stack[:len(stack)-1]
+			return true
+		}
+		stack = append(stack, n)
+		switch x := n.(type) {
+		case *ast.RangeStmt:
+			if x.End() > loopEnd {
+				loopEnd = x.End()
+			}
+		case *ast.ForStmt:
+			if x.End() > loopEnd {
+				loopEnd = x.End()
+			}
+		case *ast.CallExpr:
+			fn := calleeOf(info, x)
+			if !publishes(fn, 0) {
+				return true
+			}
+			loop := false
+			for _, a := range stack {
+				switch a.(type) {
+				case *ast.RangeStmt, *ast.ForStmt:
+					loop = true
+				}
+			}
+			if loop {
+				inLoop = append(inLoop, fn.Name())
+			} else {
+				after = append(after, fn.Name())
+			}
+		}
+		return true
+	})
+	c.Ob(rule, "fast.Comp.MultiImport", fd, len(inLoop) == 0 && len(after) >= 1, fmt.Sprintf("every import spec is validated before any package is bound: no publishing call inside the loop over the specs (found %v), the set is imported by one call after it (found %v)", inLoop, after))
+}
+
+// ruleReceiverNormalisation (T3): the functions that resolve the receiver type of a method declaration (to register
+// the method, to find the method being redefined for the rollback) must agree on how `*T` is reduced to `T`: each has
+// the statement `if trecv.Kind() == Ptr && !trecv.Named() { trecv = trecv.Elem() }` on the variable bound to t.In(0),
+// with the same condition.
+func ruleReceiverNormalisation(c *Ctx, rule string) {
+	pk := c.P.Pkg("fast")
+	info := pk.TypesInfo
+	conds := map[string]string{}
+	var at ast.Node
+	for _, fk := range []string{"fast.Comp.methodAdd", "fast.Comp.methodFind"} {
+		fd := c.P.Func(fk)
+		if fd == nil || fd.Body == nil {
+			c.Ob(rule, fk, nil, false, "anchor function not found")
+			return
+		}
+		var recv types.Object
+		ast.Inspect(fd.Body, func(n ast.Node) bool {
+			as, ok := n.(*ast.AssignStmt)
+			if !ok || len(as.Lhs) != 1 || len(as.Rhs) != 1 || recv != nil {
+				return true
+			}
+			if call, ok := unparen(as.Rhs[0]).(*ast.CallExpr); ok {
+				if s, ok := unparen(call.Fun).(*ast.SelectorExpr); ok && s.Sel.Name == "In" && len(call.Args) == 1 {
+					if id := identOf(as.Lhs[0]); id != nil {
+						recv = info.Defs[id]
+						if recv == nil {
+							recv = info.Uses[id]
+						}
+					}
+				}
+			}
+			return true
+		})
+		ast.Inspect(fd.Body, func(n ast.Node) bool {
+			ifs, ok := n.(*ast.IfStmt)
+			if !ok || len(ifs.Body.List) != 1 {
+				return true
+			}
+			as, ok := ifs.Body.List[0].(*ast.AssignStmt)
+			if !ok || len(as.Lhs) != 1 || usedObj(info, as.Lhs[0]) != recv || recv == nil {
+				return true
+			}
+			if call, ok := unparen(as.Rhs[0]).(*ast.CallExpr); ok {
+				if s, ok := unparen(call.Fun).(*ast.SelectorExpr); ok && s.Sel.Name == "Elem" && usedObj(info, s.X) == recv {
+					if _, seen := conds[fk]; !seen {
+						// the condition with the receiver variable renamed
+						conds[fk] = strings.ReplaceAll(exprString(ifs.Cond), recv.Name(), "$recv")
+						at = ifs
+					}
+				}
+			}
+			return true
+		})
+	}
+	a, b := conds["fast.Comp.methodAdd"], conds["fast.Comp.methodFind"]
+	c.Ob(rule, "fast.Comp.methodFind/receiver", at, a != "" && a == b, fmt.Sprintf("methodAdd reduces the receiver under `%s`, methodFind under `%s`: the rollback must look for the method where it is registered", a, b))
+}
